@@ -313,8 +313,10 @@ func c11run(c *c11case, x []byte) map[string]interface{} {
 				for i, rf := range refs {
 					rf := rf
 					c11try(&posts, "ReferenceStats", func() { idx.ReferenceStats(i) })
-					c11try(&posts, "Chunks", func() { idx.Chunks(rf, 0, 1<<20) })
-					c11try(&posts, "Chunks", func() { idx.Chunks(rf, 100000, 100001) })
+					for _, q := range c11queries {
+						q := q
+						c11try(&posts, fmt.Sprintf("Chunks(%d,%d)", q[0], q[1]), func() { idx.Chunks(rf, q[0], q[1]) })
+					}
 				}
 			}
 		}
@@ -332,8 +334,10 @@ func c11run(c *c11case, x []byte) map[string]interface{} {
 			for i := 0; i < n && i < 2 && ok; i++ {
 				i := i
 				c11try(&posts, "ReferenceStats", func() { idx.ReferenceStats(i) })
-				ok = c11try(&posts, "Chunks", func() { idx.Chunks(i, 0, 1<<20) })
-				ok = ok && c11try(&posts, "Chunks", func() { idx.Chunks(i, 100000, 100001) })
+				for _, q := range c11queriesCsi {
+					q := q
+					ok = ok && c11try(&posts, fmt.Sprintf("Chunks(%d,%d)", q[0], q[1]), func() { idx.Chunks(i, q[0], q[1]) })
+				}
 			}
 			if ok {
 				c11try(&posts, "MergeChunks", func() { idx.MergeChunks(index.Adjacent) })
@@ -359,7 +363,10 @@ func c11run(c *c11case, x []byte) map[string]interface{} {
 				}
 				i, nm := i, nm
 				c11try(&posts, "ReferenceStats", func() { idx.ReferenceStats(i) })
-				c11try(&posts, "Chunks", func() { idx.Chunks(nm, 0, 1<<20) })
+				for _, q := range c11queries {
+					q := q
+					c11try(&posts, fmt.Sprintf("Chunks(%d,%d)", q[0], q[1]), func() { idx.Chunks(nm, q[0], q[1]) })
+				}
 			}
 			c11try(&posts, "MergeChunks", func() { idx.MergeChunks(index.Adjacent) })
 			c11try(&posts, "WriteTo2", func() { tabix.WriteTo(io.Discard, idx) })
@@ -417,6 +424,13 @@ func c11run(c *c11case, x []byte) map[string]interface{} {
 	o["post"] = posts
 	return o
 }
+
+// c11queries are the intervals every index is asked for: ordinary, empty, reversed, negative, beyond the geometry.
+var c11queries = [][2]int{{0, 1 << 20}, {100000, 100001}, {0, 0}, {5, 5}, {100, 50}, {-1, 10}, {-20000, 10}, {0, 1 << 40}, {1 << 35, 1 << 36}, {1<<29 - 1, 1 << 29}}
+
+// c11queriesCsi: a CSI geometry can be 2^41 positions deep, where an interval of 2^40 positions legitimately
+// lists 2^26 bins of the finest level; the far-away intervals are therefore short.
+var c11queriesCsi = [][2]int{{0, 1 << 20}, {100000, 100001}, {0, 0}, {5, 5}, {100, 50}, {-1, 10}, {-20000, 10}, {1 << 40, 1<<40 + 10}, {1<<62 - 5, 1 << 62}, {1<<29 - 1, 1 << 29}}
 
 func c11postCigar(posts *[]c11post, cg sam.Cigar, n int) {
 	c11try(posts, "Cigar.String", func() { _ = cg.String() })
